@@ -14,3 +14,11 @@ mod migrations;
 #[cfg(test)]
 #[cfg(not(target_arch = "wasm32"))]
 mod tests;
+
+/// Verification hooks: re-exports of internal pure functions, compiled only with `--cfg wwcore_verif`.
+#[cfg(wwcore_verif)]
+pub mod verif_hooks {
+    pub use crate::error::ContractError;
+    pub use crate::helpers::*;
+    pub use crate::weight::*;
+}
